@@ -74,6 +74,9 @@ def typed_array(rng, X, kind):
     return base[:, ::2]
 
 
+GEN_ERRORS = []     # exceptions raised by the library while an instance was being prepared (flushed by supcheck.corr)
+
+
 def gen_features(rng, n, nu, m, metric=None, lattice=False, tie_free=False):
     dim = rng.randint(1, 4)
     N = n + nu + m
@@ -193,7 +196,13 @@ def gen_instance(rng, nmax=10, nu=0, m=0, tie_free=False, kinds=("feat", "mat", 
         # the caller's array need not be a C-contiguous float64 array: integer dtype (lattice data) or a strided view
         tk = "int" if (kind == "lattice" and r < 0.12) else "strided"
         inst.Xarr = typed_array(rng, X, tk)
-        inst.D = metric_matrix(metric, X, inst.Xarr)
+        try:
+            inst.D = metric_matrix(metric, X, inst.Xarr)
+        except Exception as ex:     # noqa - the metric refuses rows it accepts as float64 copies: reported by the caller's check
+            GEN_ERRORS.append(dict(what="DISTANCES[%r] raised %r on %s rows of a caller array (the same values as float64 are accepted)" % (metric, ex, tk),
+                                   metric=metric, X=X, array_kind=tk))
+            inst.Xarr = None
+            return inst
         inst.kind = inst.kind + "/" + tk
         if any(v != v for row in inst.D for v in row):
             inst.Xarr = None
